@@ -38,7 +38,7 @@ def run(chk, scratch):
     if not thorough:
         single = [s for s in scen if len(s["subjects"]) == 1]
         pairs = [s for s in scen if len(s["subjects"]) == 2]
-        scen = rnd.sample(single, 900) + rnd.sample(pairs, 600) + rnd.sample([s for s in single if s["unsetSection"]], 60) + rnd.sample([s for s in single if s["flagForm"] != "single"], 240) + rnd.sample([s for s in single if s["foreign"]], 200)
+        scen = rnd.sample(single, 900) + rnd.sample(pairs, 600) + rnd.sample([s for s in single if s["unsetSection"]], 60) + rnd.sample([s for s in single if s["flagForm"] != "single"], 240) + rnd.sample([s for s in single if s["foreign"]], 200) + rnd.sample([s for s in single if s["zeroDefaults"]], 200)
     chk.sample({"scenario": {k: scen[0][k] for k in ("prefix", "subjects", "invalid")}})
     inp = os.path.join(scratch, "c15-scen.ndjson")
     vlib.write_ndjson(inp, scen)
